@@ -11,6 +11,7 @@ pub mod c09;
 pub mod c10;
 pub mod c11;
 pub mod c12;
+pub mod c13x;
 pub mod c14;
 pub mod c15;
 pub mod c16;
@@ -38,7 +39,14 @@ pub struct Monitor {
 }
 
 pub fn all() -> Vec<Monitor> {
-    vec![tcp_pair::monitor_c01(), tcp_pair::monitor_c02(), tcp_peer::monitor_c04(), c05(), tcp_peer::monitor_c17(), c06::monitor(), c07::monitor(), c08(), c11::monitor(), tcp_pair::monitor_c13(), c14::monitor(), c15::monitor(), c16::monitor(), c20::monitor(), c03::monitor(), c09::monitor(), c10::monitor(), c12::monitor(), c18::monitor(), c19::monitor()]
+    vec![tcp_pair::monitor_c01(), tcp_pair::monitor_c02(), tcp_peer::monitor_c04(), c05(), tcp_peer::monitor_c17(), c06::monitor(), c07::monitor(), c08(), c11::monitor(), c13(), c14::monitor(), c15::monitor(), c16::monitor(), c20::monitor(), c03::monitor(), c09::monitor(), c10::monitor(), c12::monitor(), c18::monitor(), c19::monitor()]
+}
+
+/// C13 = TCP pair driver (probes built into the simulator) + every other driver with the Host probe
+fn c13() -> Monitor {
+    let mut m = tcp_pair::monitor_c13();
+    m.parts.extend(c13x::parts());
+    m
 }
 
 /// C08 = (a) checksum routine vs. reference [c08a] + (b) emitted valid and (c) enforced [c08bc]
